@@ -66,6 +66,10 @@ func New(mode string, seed int64, nstr int) *Table {
 	case "plain":
 		t.Strs = append([]string(nil), PlainKeys...)
 		sort.Strings(t.Strs[:3])
+	case "dots":
+		// keys that look like tree-form paths of each other: ".a" must not be read as the path to "a"
+		t.Strs = []string{".a", ".a.b", "a", "b", "#0", ".b"}
+		sort.Strings(t.Strs[:nstr])
 	case "weird":
 		t.Strs = pick(WeirdKeys)
 	case "extreme":
@@ -75,7 +79,8 @@ func New(mode string, seed int64, nstr int) *Table {
 		for i, v := range ints {
 			t.Ints[i-4] = v
 		}
-		flts := []float64{-math.MaxFloat64, -1e300, -1.5, -math.SmallestNonzeroFloat64, 0, math.SmallestNonzeroFloat64, 0.1, 1, 1e6, 1e21, 1e300, math.MaxFloat64}
+		// tokens 4 and 5 are adjacent float64 values (Equals must tell them apart)
+		flts := []float64{-math.MaxFloat64, -1e300, -1.5, -math.SmallestNonzeroFloat64, 0, math.SmallestNonzeroFloat64, 0.1, 0.2, 0.3, math.Nextafter(0.3, 1), 1e300, math.MaxFloat64}
 		for i, v := range flts {
 			t.Floats[i-4] = v
 		}
@@ -97,6 +102,15 @@ func NewTF(seed int64, nstr int) *Table {
 	rng.Shuffle(len(p), func(i, j int) { p[i], p[j] = p[j], p[i] })
 	if nstr > len(p) {
 		nstr = len(p)
+	}
+	// one of the keys in use is always non-ASCII (multi-byte keys in non-terminal path segments)
+	if nstr >= 1 {
+		na := []string{"ž", "😀"}[rng.Intn(2)]
+		for i, k := range p {
+			if k == na {
+				p[i], p[0] = p[0], p[i]
+			}
+		}
 	}
 	sort.Strings(p[:nstr])
 	t.Strs = p
